@@ -358,6 +358,9 @@ func (sr *seqRunner) runSeqCase(cs *seqCase) (nontrivial bool, fp uint64) {
 		if op.Op == "" {
 			break
 		}
+		if opHook != nil {
+			opHook()
+		}
 		cs.Ops = append(cs.Ops, op)
 		if op.Op == "Clock" {
 			now = op.Now
